@@ -54,13 +54,17 @@ def ltLowest (m : Int) : Option Int → Bool
   | none => true
   | some l => decide (m < l)
 
+/-- the update test of the loop:
+`prefix_len > longest_prefix or (prefix_len == longest_prefix and route.metric < lowest_metric)`. -/
+def betterCond (p l m : Int) (lo : Option Int) : Bool := decide (p > l) || (p == l && ltLowest m lo)
+
 /-- one loop iteration; `none` = `IPv4Network(...)` raised. -/
 def iter (dst : Ip) (acc : Acc) (i : Nat) (r : Route) : Option Acc :=
   match maskPrefix r.mask with
   | none => none
   | some p =>
     if inNet dst r.addr p then
-      if (p : Int) > acc.longest || ((p : Int) == acc.longest && ltLowest r.metric acc.lowest) then
+      if betterCond p acc.longest r.metric acc.lowest then
         some { best := some (i, r), longest := p, lowest := some r.metric }
       else some acc
     else some acc
